@@ -40,6 +40,7 @@ type rsAttrs struct {
 	Origin     int      `json:"origin"`
 	ASPath     []rsSeg  `json:"aspath"`
 	NextHop    string   `json:"nexthop"`
+	LinkLocal  string   `json:"link_local,omitempty"` // second (link-local) next hop of an IPv6 route
 	MED        int64    `json:"med"` // -1 absent
 	LocalPref  int64    `json:"lp"`  // -1 absent
 	Comms      []uint32 `json:"comms"`
@@ -64,6 +65,9 @@ type rsPeer struct {
 
 type rsGlobal struct {
 	Confed bool `json:"confed"`
+	// NoClusterID: route-reflector clients are configured without a cluster-id; the effective one is the router-id
+	// (which is what the harness configures explicitly otherwise, so the reference does not change)
+	NoClusterID bool `json:"no_cluster_id,omitempty"`
 }
 
 // localAS is the AS the server presents to this peer.
@@ -88,6 +92,9 @@ func rsApiPeer(g rsGlobal, p *rsPeer) *api.Peer {
 	}
 	if p.Kind == rsRRClient {
 		ap.RouteReflector = &api.RouteReflector{RouteReflectorClient: true, RouteReflectorClusterId: rsRouterID}
+		if g.NoClusterID {
+			ap.RouteReflector.RouteReflectorClusterId = ""
+		}
 	}
 	for _, f := range []bgp.Family{bgp.RF_IPv4_UC, bgp.RF_IPv6_UC} {
 		as := &api.AfiSafi{
@@ -185,7 +192,11 @@ func (a rsAttrs) toBGP(nlri bgp.NLRI, v6 bool, pathID uint32) []bgp.PathAttribut
 		attrs = append(attrs, c)
 	}
 	if v6 {
-		mp, _ := bgp.NewPathAttributeMpReachNLRI(bgp.RF_IPv6_UC, []bgp.PathNLRI{{NLRI: nlri, ID: pathID}}, netip.MustParseAddr(a.NextHop))
+		nhs := []netip.Addr{netip.MustParseAddr(a.NextHop)}
+		if a.LinkLocal != "" {
+			nhs = append(nhs, netip.MustParseAddr(a.LinkLocal))
+		}
+		mp, _ := bgp.NewPathAttributeMpReachNLRI(bgp.RF_IPv6_UC, []bgp.PathNLRI{{NLRI: nlri, ID: pathID}}, nhs...)
 		attrs = append(attrs, mp)
 	}
 	if a.UnkT > 0 {
@@ -294,6 +305,9 @@ func rsFromWire(attrs []bgp.PathAttributeInterface) (rsAttrs, []string) {
 			a.NextHop = v.Value.String()
 		case *bgp.PathAttributeMpReachNLRI:
 			a.NextHop = v.Nexthop.String()
+			if v.LinkLocalNexthop.IsValid() {
+				a.LinkLocal = v.LinkLocalNexthop.String()
+			}
 		case *bgp.PathAttributeMultiExitDisc:
 			a.MED = int64(v.Value)
 		case *bgp.PathAttributeLocalPref:
@@ -422,6 +436,10 @@ func rsCloneAttrs(a rsAttrs) rsAttrs {
 func rsExport(g rsGlobal, src *rsPeer, a rsAttrs, dst *rsPeer, v6 bool) (rsAttrs, bool, string) {
 	out := rsCloneAttrs(a)
 	local := src == nil
+	if !local {
+		// RFC 2545 section 3: the link-local next hop of the neighbour the route was learned from is never passed on
+		out.LinkLocal = ""
+	}
 	// replace-peer-as happens before the loop check
 	if dst.ReplacePeerAS {
 		for i := range out.ASPath {
@@ -482,6 +500,7 @@ func rsExport(g rsGlobal, src *rsPeer, a rsAttrs, dst *rsPeer, v6 bool) (rsAttrs
 		}
 		if local && (out.NextHop == "0.0.0.0" || out.NextHop == "::") {
 			out.NextHop = localAddr
+			out.LinkLocal = ""
 		}
 		return out, true, ""
 	}
@@ -489,6 +508,7 @@ func rsExport(g rsGlobal, src *rsPeer, a rsAttrs, dst *rsPeer, v6 bool) (rsAttrs
 	out.Originator, out.Cluster = "", nil
 	if !local || out.NextHop == "0.0.0.0" || out.NextHop == "::" {
 		out.NextHop = localAddr
+		out.LinkLocal = "" // the link-local address belongs to the next hop that was replaced
 	}
 	las := g.localASFor(dst)
 	if dst.RemovePrivate != 0 {
@@ -547,6 +567,9 @@ func rsAttrsEqual(a, b rsAttrs) (bool, string) {
 	}
 	if a.NextHop != b.NextHop {
 		diffs = append(diffs, fmt.Sprintf("next hop %s vs %s", a.NextHop, b.NextHop))
+	}
+	if a.LinkLocal != b.LinkLocal {
+		diffs = append(diffs, fmt.Sprintf("link-local next hop %q vs %q", a.LinkLocal, b.LinkLocal))
 	}
 	if a.MED != b.MED {
 		diffs = append(diffs, fmt.Sprintf("MED %d vs %d", a.MED, b.MED))
